@@ -1,5 +1,157 @@
-(* C17Proofs.v — lemmas about the linked view model. *)
+(* C17Proofs.v — lemmas about the linked view model: strings, guards, tree algebra. *)
 From SV Require Import Base View CorrC17.
+From Coq Require Import Lia.
 
-Lemma split_join_demo : split_sep (join_sep [s_dot; s_job]) = [s_dot; s_job].
-Proof. reflexivity. Qed.
+(* ------------------------------------------------------------------ strings *)
+Definition nosep (c : str) : Prop := ~ In SEP c.
+
+Lemma split_on_app_nosep : forall c s acc rest,
+  ~ In c s -> split_on c (s ++ c :: rest) acc = (rev acc ++ s) :: split_on c rest [].
+Proof.
+  induction s as [|x s IH]; intros acc rest Hn; simpl.
+  - rewrite N.eqb_refl. rewrite app_nil_r. reflexivity.
+  - destruct (N.eqb x c) eqn:E.
+    + apply N.eqb_eq in E. exfalso. apply Hn. left. auto.
+    + rewrite IH by (intro H; apply Hn; right; auto). simpl. rewrite <- app_assoc. reflexivity.
+Qed.
+
+Lemma split_on_nosep : forall c s acc, ~ In c s -> split_on c s acc = [rev acc ++ s].
+Proof.
+  induction s as [|x s IH]; intros acc Hn; simpl.
+  - rewrite app_nil_r. reflexivity.
+  - destruct (N.eqb x c) eqn:E.
+    + apply N.eqb_eq in E. exfalso. apply Hn. left. auto.
+    + rewrite IH by (intro H; apply Hn; right; auto). simpl. rewrite <- app_assoc. reflexivity.
+Qed.
+
+Lemma split_join : forall cs, cs <> [] -> Forall nosep cs -> split_sep (join_sep cs) = cs.
+Proof.
+  induction cs as [|c cs IH]; intros Hne Hf; [congruence|].
+  inversion Hf as [|? ? Hc Hcs]; subst.
+  destruct cs as [|c' cs'].
+  - simpl. unfold split_sep. rewrite split_on_nosep by exact Hc. reflexivity.
+  - change (join_sep (c :: c' :: cs')) with (c ++ SEP :: join_sep (c' :: cs')).
+    unfold split_sep. rewrite split_on_app_nosep by exact Hc. simpl rev. simpl app.
+    f_equal. apply IH; [discriminate|exact Hcs].
+Qed.
+
+Lemma path_eqb_eq : forall a b, path_eqb a b = true <-> a = b.
+Proof. apply list_eqb_eq. apply str_eqb_eq. Qed.
+
+Lemma path_eqb_refl : forall a, path_eqb a a = true.
+Proof. intro a. apply path_eqb_eq. reflexivity. Qed.
+
+Lemma path_mem_In : forall p l, path_mem p l = true <-> In p l.
+Proof.
+  induction l as [|q l IH]; simpl; [split; [discriminate|tauto]|].
+  rewrite orb_true_iff, IH, path_eqb_eq. split; intros [H|H]; auto.
+Qed.
+
+Lemma path_mem_false : forall p l, path_mem p l = false <-> ~ In p l.
+Proof.
+  intros. rewrite <- path_mem_In. destruct (path_mem p l); split; congruence.
+Qed.
+
+(* ------------------------------------------------------------------ guards: rejected inputs leave the state untouched *)
+Definition guard_rejects (c : call) : Prop :=
+  (exists e, make_links c = Err e) \/
+  (exists lk, make_links c = Ok lk /\ check_structure [] (keys_of lk) = false).
+
+Lemma reject_unchanged : forall hint s c,
+  guard_rejects c ->
+  snd (create_linked_view hint s c) = s /\ exists e, fst (create_linked_view hint s c) = Err e.
+Proof.
+  intros hint s c [[e H]|[lk [H1 H2]]]; unfold create_linked_view.
+  - rewrite H. simpl. eauto.
+  - rewrite H1, H2. simpl. eauto.
+Qed.
+
+(* a state change together with an error can only come out of _update_view (an OSError) *)
+Lemma error_changed_is_oserror : forall hint s c e,
+  fst (create_linked_view hint s c) = Err e -> snd (create_linked_view hint s c) <> s -> e = EOSError.
+Proof.
+  intros hint s c e. unfold create_linked_view.
+  destruct (make_links c) as [lk|e0]; simpl; [|congruence].
+  destruct (check_structure [] (keys_of lk)); simpl; [|congruence].
+  destruct (update_view hint s (c_cwd c) (c_prefix c) lk) as [s' [e1|]]; simpl; congruence.
+Qed.
+
+(* the separator guard *)
+Lemma sep_rejected : forall c,
+  existsb (fun j => existsb has_sep (j_items j)) (c_jobs c) = true -> make_links c = Err ERuntimeError.
+Proof. intros c H. unfold make_links. rewrite H. reflexivity. Qed.
+
+(* ------------------------------------------------------------------ the leaf/node check as written *)
+Lemma is_prefix_spec : forall a b, is_prefix a b = true <-> exists r, b = a ++ r.
+Proof.
+  induction a as [|x a IH]; intros b; simpl.
+  - split; eauto.
+  - destruct b as [|y b]; [split; [discriminate|intros [r H]; discriminate]|].
+    rewrite andb_true_iff, str_eqb_eq, IH. split.
+    + intros [-> [r ->]]. eauto.
+    + intros [r H]. inversion H; subst. eauto.
+Qed.
+
+Lemma proper_prefixes_spec : forall tokens acc p,
+  In p (proper_prefixes tokens acc) <->
+  exists a b, a <> [] /\ b <> [] /\ tokens = a ++ b /\ p = acc ++ a.
+Proof.
+  induction tokens as [|c ts IH]; intros acc p.
+  - simpl. split; [tauto|]. intros [a [b [Ha [Hb [H _]]]]]. destruct a; [congruence|discriminate].
+  - destruct ts as [|c' ts'].
+    + simpl. split; [tauto|]. intros [a [b [Ha [Hb [H _]]]]].
+      destruct a as [|x a]; [congruence|]. destruct a; destruct b; try congruence; discriminate.
+    + change (proper_prefixes (c :: c' :: ts') acc)
+        with ((acc ++ [c]) :: proper_prefixes (c' :: ts') (acc ++ [c])).
+      cbn [In]. rewrite IH. split.
+      * intros [H|[a [b [Ha [Hb [H1 H2]]]]]].
+        -- exists [c], (c' :: ts'). repeat split; try discriminate; auto.
+        -- exists (c :: a), b. repeat split; try discriminate; auto.
+           ++ simpl. rewrite H1. reflexivity.
+           ++ rewrite H2, <- app_assoc. reflexivity.
+      * intros [a [b [Ha [Hb [H1 H2]]]]]. destruct a as [|x a]; [congruence|].
+        simpl in H1. inversion H1; subst x.
+        destruct a as [|y a].
+        -- left. subst p. reflexivity.
+        -- right. exists (y :: a), b. repeat split; try discriminate; auto.
+           rewrite H2, <- app_assoc. reflexivity.
+Qed.
+
+(* what the check does guarantee: no key is a (non-empty) proper prefix of an EARLIER key *)
+Lemma check_structure_sound_aux : forall ks chk,
+  check_structure chk ks = true ->
+  forall l1 k l2, ks = l1 ++ k :: l2 ->
+    ~ In k chk /\ forall k', In k' l1 -> ~ In k (proper_prefixes k' []).
+Proof.
+  induction ks as [|k0 ks IH]; intros chk H l1 k l2 E.
+  - destruct l1; discriminate.
+  - simpl in H. destruct (path_mem k0 chk) eqn:M; [discriminate|].
+    destruct l1 as [|x l1]; simpl in E; inversion E; subst.
+    + split; [apply path_mem_false; exact M|]. intros k' [].
+    + specialize (IH _ H l1 k l2 eq_refl). destruct IH as [Hn Hl].
+      split.
+      * intro Hin. apply Hn. apply in_or_app. right. exact Hin.
+      * intros k' [->|Hk']; [|auto]. intro Hin. apply Hn. apply in_or_app. left. exact Hin.
+Qed.
+
+Lemma check_structure_sound : forall ks,
+  check_structure [] ks = true ->
+  forall l1 k l2 k', ks = l1 ++ k :: l2 -> In k' l1 -> k <> [] -> proper_prefix k k' = false.
+Proof.
+  intros ks H l1 k l2 k' E Hin Hne.
+  destruct (check_structure_sound_aux ks [] H l1 k l2 E) as [_ Hl].
+  specialize (Hl k' Hin).
+  destruct (proper_prefix k k') eqn:P; auto. exfalso. apply Hl.
+  unfold proper_prefix in P. apply andb_true_iff in P. destruct P as [P1 P2].
+  apply is_prefix_spec in P1. destruct P1 as [r ->].
+  apply proper_prefixes_spec. exists k, r. repeat split; auto.
+  intro; subst r. rewrite app_nil_r, path_eqb_refl in P2. discriminate.
+Qed.
+
+(* ... and what it does not: the converse order is accepted (DESIGN F15) *)
+Definition s_a : str := [97%N].
+Definition s_b : str := [98%N].
+Lemma leafnode_order_dependent :
+  let k1 := [s_a; s_job] in let k2 := [s_a; s_job; s_b; s_job] in
+  check_structure [] [k1; k2] = true /\ check_structure [] [k2; k1] = false /\ proper_prefix k1 k2 = true.
+Proof. vm_compute. auto. Qed.
